@@ -589,7 +589,7 @@ class RecordDescriptor:
 
         return RecordFieldSet(field for field in self.fields.values() if field.typename == name)
 
-    def __call__(self, *args, **kwargs) -> Record:
+    def __call__(self, /, *args, **kwargs) -> Record:
         """Create a new Record initialized with ``args`` and ``kwargs``."""
         return self.recordType(*args, **kwargs)
 
